@@ -88,13 +88,20 @@ theorem flat_elem (K : Consts) (ts : TypeSystem) (cass : List Cas) (c : Cas) (ci
     flatElem ts cass H x o t, ho, ?_, hns, hnv, ?_, ?_⟩
   · exact renderFs_flat K ts cass c ci H a x o t hc ho ht hox hpa hfa hfeat hAnn
   · intro hpCur
+    have hren := flatAttrsW_ren cass H (isInstanceOf ts o.ty ANNOTATION) o (allFeatures t)
+      (fun f hf => ⟨(hfeat f hf).1, (hfeat f hf).2.2.2.1, (hfeat f hf).2.2.1⟩)
+    rw [← hren]
     apply parseFsElem_flat K ts tsIdx hpCur (flatElem ts cass H x o t) t x _ hgt rfl rfl
     · intro p hp
-      obtain ⟨f, hf, hpf⟩ := flatAttrs_keys _ _ _ _ _ p hp
+      obtain ⟨f, hf, hpf⟩ := flatAttrsW_keys _ _ _ _ _ p hp
       have hff := hfeat f hf
-      rw [hpf]
-      exact ⟨hff.2.2.2.2.1, hff.2.2.2.1, hff.2.2.1, List.mem_map_of_mem hf⟩
-    · exact flat_sofa_attr K ts cass c ci H _ o (allFeatures t) hc hnd hfeat
+      rw [hpf, renRes_xmlName f hff.1 hff.2.2.2.1 hff.2.2.1]
+      refine ⟨?_, List.mem_map_of_mem hf⟩
+      intro he
+      exact hff.2.2.2.2.1 ((xmlName_eq_iff f hff.1 ID (by decide) (by decide) (by decide) (by decide)).mp he)
+    · intro s hs
+      rw [← alistGet?_mapKey renRes "sofa" renRes_sofa, hren] at hs
+      exact flat_sofa_attr K ts cass c ci H _ o (allFeatures t) hc hnd hfeat s hs
   · refine ⟨htn, rfl, ?_, ?_⟩
     · unfold objOf
       dsimp only
